@@ -41,6 +41,7 @@ Definition compile_pattern (pattern : str) (exact : bool) : compiled :=
   | POk r => CRe r
   | PErr => CNil
   | PUnsup => CUnsup
+  | PFuel => CUnsup        (* not observed; counted out of model *)
   end.
 
 Record pmatcher := { pm_pattern : str; pm_re : compiled; pm_exact : bool }.
